@@ -117,6 +117,35 @@ func c19LocalBuffer(depth int, h *c19Holder) (diffs []string) {
 }
 
 func monC19(c *drv.Ctx) {
+	// buffers grown to several MiB and then closed / reset: empty afterwards, and usable again
+	c.Stage("large-buffer-close", 6, true, func(cs *drv.Case) {
+		size := []int{1 << 20, 4<<20 + 1, 9 << 20}[cs.Idx%3]
+		var buf bytes.Buffer
+		tr := apache.NewBufferTransport(&buf)
+		chunk := bytes.Repeat([]byte{0x61}, 1<<16)
+		for buf.Len() < size {
+			tr.Write(chunk)
+		}
+		cs.Desc = M{"bytes_written": buf.Len(), "via": []string{"Close", "buffer.Reset"}[cs.Idx/3]}
+		if cs.Idx/3 == 0 {
+			tr.Close()
+		} else {
+			buf.Reset()
+		}
+		if buf.Len() != 0 || tr.RemainingBytes() != 0 {
+			cs.Fail("buffer-transport-diverges", M{"after": cs.Desc["via"], "size": ">1MiB"}, M{"len": buf.Len(), "remaining": tr.RemainingBytes(), "message": "a large buffer is not empty after Close/Reset"})
+			return
+		}
+		tr.Write([]byte("abc"))
+		p := make([]byte, 8)
+		n, _ := tr.Read(p)
+		if n != 3 || string(p[:3]) != "abc" || buf.Len() != 0 {
+			cs.Fail("buffer-transport-diverges", M{"after": cs.Desc["via"], "size": ">1MiB", "what": "reuse"}, M{"read": string(p[:n]), "len": buf.Len()})
+		}
+		cs.Count(true, "large", cs.Idx)
+		cs.C.Obs("large buffers closed", 1)
+	})
+
 	// a transport over a buffer that is a local variable of the caller, kept in a heap object while the
 	// caller's stack grows: the transport IS that buffer wherever the runtime moves it
 	c.Stage("local-buffer-stack-growth", 64, true, func(cs *drv.Case) {
